@@ -6,7 +6,8 @@ from .dag import Model, render
 
 
 class Project:
-    def __init__(self, spec, backend, root=None, conf_args=(), extra_env=None, tag='dag'):
+    def __init__(self, spec, backend, root=None, conf_args=(), extra_env=None, tag='dag',
+                 stub_install=False):
         self.spec = spec
         self.backend = backend
         self.root = root or core.mkscratch(tag)
@@ -17,6 +18,9 @@ class Project:
         extra = proj.stub_toolchain_env(self.log)
         extra.update({'CP': 'vwrap-cp -f', 'SYMLINK': 'vwrap-ln -sf',
                       'HARDLINK': 'vwrap-ln -f', 'VSTUB_ENVKEYS': 'VF_E'})
+        if stub_install:
+            # never really install: the install tools are recorders too
+            extra.update({'DOPPEL': 'vrec --doppel', 'PATCHELF': 'vrec --doppel'})
         if extra_env:
             extra.update(extra_env)
         self.env = core.base_env(extra)
@@ -47,6 +51,9 @@ class Project:
             base = os.path.basename(r['name'])
             argv = r['argv']
             sid = None
+            if len(argv) > 1 and argv[1] == '--doppel':
+                sids.append('doppel')
+                continue
             ident = [a for a in argv[1:3] if a.startswith('--id=')]
             if ident:
                 n = int(ident[0][5:])
